@@ -44,8 +44,9 @@ NAMES = {
     "mathconst": {"S1": "S1", "S2": "S2", "k1": "pi", "k2": "e", "d": "d1", "f": "fd", "C": "comp"},
     "mathfunc": {"S1": "S1", "S2": "S2", "k1": "exp", "k2": "math", "d": "log", "f": "fd", "C": "comp"},
     "timelike": {"S1": "t", "S2": "time_", "k1": "T", "k2": "dt", "d": "d1", "f": "fd", "C": "comp"},
+    "modules": {"S1": "math", "S2": "S2", "k1": "scipy", "k2": "k2", "d": "numpy", "f": "fd", "C": "comp"},
 }
-LAWS = ["ma", "ma-comp", "piecewise", "power", "exp", "ln", "fcall"]
+LAWS = ["ma", "ma-comp", "piecewise", "power", "exp", "ln", "fcall", "sqrt", "piconst"]
 STOICH = ["one", "two", "half", "rule"]
 K2 = ["const", "rule", "ia"]
 
@@ -72,6 +73,10 @@ def law_expr(law, nm, use_d):
         return f"{k} * ln({S1} + 1)", lambda e: val(e) * math.log(e["S1"] + 1)
     if law == "fcall":
         return f"{f}({S1}, {k})", lambda e: e["S1"] * val(e) / (1 + val(e))
+    if law == "sqrt":
+        return f"{k} * sqrt({S1})", lambda e: val(e) * math.sqrt(e["S1"])
+    if law == "piconst":
+        return f"{k} * pi * {S1} + exponentiale * 0.125", lambda e: val(e) * math.pi * e["S1"] + math.e * 0.125
     raise ValueError(law)
 
 
